@@ -129,6 +129,45 @@ def rule_l3(repo, col):
                construct="sort/2 binding", function="add_standard_builtins")
 
 
+def rule_l4(repo, col):
+    """clause/2 with a bound head (what cut.pl collects its candidate rules with) reports EVERY clause of the predicate: the identifiers handed to database.to_clause are the
+    children of the define node, unfiltered (probabilistic rules and annotated-disjunction heads are compiled into grouped clause nodes - they are rules all the same)"""
+    import ast
+    from ..index import norm, walk_no_nested
+    from ..astutil import dotted
+    from .. import dtable, modes
+
+    f = repo.func("problog.engine_builtin", "_builtin_clause")
+    m = f.module
+    sites = [s_ for s_ in modes.sites(repo, ["problog.engine_builtin"]) if s_.func is f]
+    if len(sites) != 1 or sites[0].modes is None:
+        raise AnalysisError("_builtin_clause: check_mode site not understood")
+    bound = [i for i, md in enumerate(sites[0].modes) if md[0] != "v"]
+    if len(bound) != 1:
+        raise AnalysisError("_builtin_clause: bound-head mode not found")
+    paths = dtable.compatible(dtable.extract(f.node, opaque_loops=True), [(norm(sites[0].call), bound[0])])
+    n = 0
+    for p_ in paths:
+        cl = p_.env.get("clauses")
+        if cl is None or cl == "[]":
+            continue
+        try:
+            e = ast.parse(cl, mode="eval").body
+        except SyntaxError:
+            raise AnalysisError("_builtin_clause: clause list not parseable")
+        if not isinstance(e, ast.ListComp) or not any(isinstance(x, ast.Call) and isinstance(x.func, ast.Attribute) and x.func.attr == "to_clause" for x in ast.walk(e.elt)):
+            raise AnalysisError("_builtin_clause: clause list not understood: %s" % cl[:80])
+        n += 1
+        gen = e.generators[0]
+        src = norm(gen.iter)
+        unfiltered = len(e.generators) == 1 and not gen.ifs and src.endswith(".children") and "get_node(" in src and not any(isinstance(x, (ast.ListComp, ast.GeneratorExp)) or (isinstance(x, ast.Call) and dotted(x.func) == "filter") for x in ast.walk(gen.iter))
+        col.decide("L4", m, f.node, unfiltered, "clause/2 lists every child of the predicate's define node",
+                   "clause/2 with a bound head converts only some clauses of the predicate (%s%s): library(cut) collects its candidate rules with all(Index, clause(r(Index, ..), _), List), so a "
+                   "rule that clause/2 hides - e.g. every probabilistic rule `p::r(I,..) :- body`, which is compiled into a grouped clause node - is never tried and a higher-indexed rule "
+                   "answers instead" % (src[:70], " if %s" % norm(gen.ifs[0])[:50] if gen.ifs else ""), construct="_builtin_clause: clauses filtered", function="_builtin_clause")
+    col.floor("L4.clause_listings", n, 1)
+
+
 def run(repo, col):
     col.rule("L1", "cut/1 and cut/2 build the indexed call, collect all indices and sort them")
     col.rule("L2", "cut/4 walks the sorted list and takes the first applicable rule")
@@ -139,6 +178,8 @@ def run(repo, col):
     col.rule("O6", "tier table of struct_cmp (dependency)")
     rule_l1_l2(repo, col)
     rule_l3(repo, col)
+    col.rule("L4", "clause/2 reports every clause of a predicate")
+    rule_l4(repo, col)
     c15.rule_o0(repo, col)
     n = c15.rule_o1(repo, col, ["struct_cmp"])
     col.floor("O1.threeway_assignments", n, 3)
